@@ -3,7 +3,7 @@
    Store.PebbleIter (pkg/db iterator.go/db.go/reader.go), specification: Store.DiffDBSpec. *)
 From Coq Require Import List NArith ZArith Bool.
 From LE Require Import Base.Lex Store.SMap Store.PebbleIter Store.PebbleIterProofs Store.DiffDB Store.DiffDBProofs
-  Store.DiffDBScanProofs Store.DiffDBSpec Store.DiffDBRefine Chain.BlockStore Chain.U32 Chain.HeightIndex.
+  Store.DiffDBScanProofs Store.DiffDBSpec Store.DiffDBRefine Store.BatchDB Chain.BlockStore Chain.U32 Chain.HeightIndex.
 Import ListNotations.
 
 (* For every initial database, every root prefix and EVERY sequence of get/has/set/del/range/iterate/snapshot/
@@ -107,6 +107,17 @@ Proof.
   rewrite (proj1 (range_refines db c m pfx (u32be 0) (u32be h) 1 true Hsdb Hsm HI Hm)).
   apply latest_at_or_below; assumption.
 Qed.
+
+(* pkg/db/batchdb (no overlay): for every operation sequence the reads return the DATABASE value, whatever was
+   put in the batch before (batchdb does not stage), and writing the batch gives exactly the map the overlay
+   specification reaches with the same set/del operations *)
+Theorem C12_batchdb_reads_ignore_batch : forall db pfx ops batch,
+  snd (bdb_run db pfx batch ops) = map (bdb_read_spec db pfx) ops.
+Proof. exact bdb_reads_ignore_batch. Qed.
+
+Theorem C12_batchdb_write_equals_spec : forall db pfx ops,
+  apply_writes (fst (bdb_run db pfx [] ops)) db = s_map (fst (spec_run (spec_init db pfx) (flat_map bop_as_op ops))).
+Proof. exact bdb_write_equals_spec. Qed.
 
 (* non-vacuity: a concrete run with staged delete + limit, prefix views, snapshot/restore *)
 Local Open Scope N_scope.
